@@ -93,6 +93,29 @@ Ident == [ten |-> 0, mu |-> 0]
 \* physical meaning: a number x in unit u is x * 10^e * (mu0^-1 if kind = "B") A/m
 Phys(u) == [ten |-> u.e, mu |-> IF u.kind = "B" THEN -1 ELSE 0]
 
+(* ------------------------------------------------------------------ the current loop *)
+(* "The closed-form vector potential of a current loop matches numerical quadrature for all loop radii / positions".       *)
+(* A(r) = mu0 I / 4 pi * G(r),  G = \oint dl' / |r - r'|.  An observation is a sequence of points, each component of the  *)
+(* closed form (a) and of the quadrature (b) quantised to 1e-9 of the point's scale (harness/fields.py: loop_scale: the    *)
+(* size of the quadrature value, floored by the potential 1e-8 of the coordinates' magnitude off the axis), and the       *)
+(* number of components the closed form returned as NaN or inf.  The environment chooses the regime of the points:        *)
+(*   on_axis    rho = 0 (the loop centre included): the potential vanishes by symmetry                                     *)
+(*   near_axis  rho / R = 10^rexp, rexp in -12..-3  (m = 4 R rho / ((R + rho)^2 + z^2) -> 0)                                *)
+(*   far_field  |r - c| / R = 10^rexp >= 200        (m -> 0 as well)                                                       *)
+(*   generic    rho / R in 0.05..12, at least 0.2 R from the wire                                                          *)
+LoopRegimes == {"on_axis", "near_axis", "far_field", "generic"}
+LoopRexp(regime) == CASE regime = "near_axis" -> (-12)..(-3)
+                      [] regime = "far_field" -> 2..7
+                      [] OTHER -> {0}
+AbsI(x) == IF x < 0 THEN -x ELSE x
+\* NaN / inf is not a value of the potential: no tolerance accepts it
+LoopFinite(nonfinite) == nonfinite = 0
+LoopWithin(a, b, tol) == Len(a) = Len(b) /\ Len(a) > 0 /\ \A j \in 1..Len(a) : AbsI(a[j] - b[j]) <= tol
+\* the oracle's own statement on the axis: the quadrature is exactly zero there (every component)
+LoopAxisVanishes(regime, b) == regime = "on_axis" => \A j \in 1..Len(b) : b[j] = 0
+LoopMatchesQuadrature(regime, a, b, nonfinite, tol) ==
+  /\ LoopFinite(nonfinite) /\ LoopAxisVanishes(regime, b) /\ LoopWithin(a, b, tol)
+
 VARIABLES mode, el, co, fu, fv, fw
 vars == <<mode, el, co, fu, fv, fw>>
 
